@@ -41,6 +41,14 @@ func NewRecorder() *Recorder {
 	}
 }
 
+// ResetDecisions forgets what earlier allocation rounds recorded for the job. A round tries
+// several job-level hyperNodes and records the subJob decisions of each of them; only the
+// records of the current round may be applied by UpdateDecisionToJob.
+func (d *Recorder) ResetDecisions(job api.JobID) {
+	delete(d.jobDecisions, job)
+	delete(d.subJobDecisions, job)
+}
+
 func (d *Recorder) SaveJobDecision(job api.JobID, hyperNodeForJob string) {
 	d.jobDecisions[job] = hyperNodeForJob
 }
